@@ -50,6 +50,9 @@ def run(ctx):
     # slice sizes that are not a multiple of the 16-byte chunk unit (the goroutine split clips the last chunk)
     sets.append(P.PSet({"p": L.gen_content(rng, "random", 40 * 3 + 5), "q": L.gen_content(rng, "random", 41)}, 40, 3, g=1, tag="slice 40"))
     sets.append(P.PSet({"p": L.gen_content(rng, "random", 100 * 2 + 9), "q": L.gen_content(rng, "random", 100)}, 100, 3, g=1, tag="slice 100"))
+    # slice sizes that are multiples of 16 with as many (or fewer) goroutines as 16-byte units: a trailing chunk of exactly 16 bytes
+    sets.append(P.PSet({"p": L.gen_content(rng, "random", 48 * 2 + 7), "q": L.gen_content(rng, "random", 48)}, 48, 3, g=1, tag="slice 48"))
+    sets.append(P.PSet({"p": L.gen_content(rng, "random", 80 + 3), "q": L.gen_content(rng, "random", 79)}, 80, 2, g=1, tag="slice 80"))
     lines, meta = [], []
     for ps in sets:
         ps.bystanders = {}
@@ -59,7 +62,7 @@ def run(ctx):
         lines.append(ref); meta.append((ps, "reference", None))
         for pm in perms:
             lines.append(ps.create_line("mem", order=pm, g=1)); meta.append((ps, "perm", list(pm)))
-        for g in (2, 4, 5, 6, 7, 8, 32):
+        for g in (2, 3, 4, 5, 6, 7, 8, 32):
             lines.append(ps.create_line("mem", order=names, g=g)); meta.append((ps, "g", g))
         lines.append(ref); meta.append((ps, "repeat", None))
         lines.append(ps.create_line("real", order=names, g=3)); meta.append((ps, "real-g3", None))
